@@ -34,6 +34,9 @@ def gen_client(rng: random.Random, mode: str, n_ops: int, defs=None):
         defs = built  # else: the same definition text as another client (two programs loading one header)
     names = [s["name"] for s in defs["structs"]]
     ops = [{"op": "load"}]
+    # custom: the client registers a user-defined type (add_custom_type) whose values are MUTABLE objects, and a structure
+    # with a field of that type
+    custom = mode == "C14" and rng.random() < 0.2
     n_parse = 0
     paths = {n: [p for p in gen.leaf_paths(defs, s)] for n, s in zip(names, defs["structs"])}
     extra = 0
@@ -42,7 +45,10 @@ def gen_client(rng: random.Random, mode: str, n_ops: int, defs=None):
         t = rng.choice(names)
         h = rng.randrange(16)
         if mode == "C14":
-            if r < 0.14:
+            if custom and rng.random() < 0.1:
+                ops.append(rng.choice([{"op": "custom_new"}, {"op": "custom_new"}, {"op": "custom_mut", "h": h, "b": rng.randrange(256)},
+                                       {"op": "custom_mut", "h": h, "b": rng.randrange(256)}, {"op": "custom_parse", "seed": rng.getrandbits(16)}]))
+            elif r < 0.14:
                 ops.append({"op": "default", "t": t})
             elif r < 0.30:
                 ops.append({"op": "parse", "t": t, "seed": rng.getrandbits(30), "n": rng.choice([32, 64, 128]), "bytes": rng.random() < 0.5})
@@ -133,7 +139,7 @@ def gen_client(rng: random.Random, mode: str, n_ops: int, defs=None):
                 ops.append({"op": "dump", "h": h})
     # late_defines: the structures are loaded BEFORE the #define lines they refer to, so array lengths stay expressions
     # that look the constants up by name at parse time (instead of being folded when the definition is loaded)
-    return {"cfg": cfg, "defs": defs, "ops": ops, "late_defines": mode == "C14" and bool(defs["defines"]) and rng.random() < 0.3}
+    return {"cfg": cfg, "defs": defs, "ops": ops, "custom": custom, "late_defines": mode == "C14" and bool(defs["defines"]) and rng.random() < 0.3}
 
 
 def gen_mutation(rng, defs, paths, h, simple=False):
@@ -319,6 +325,33 @@ def _has_union(t, depth=0):
     return False
 
 
+_BLOB = []
+
+
+def _blob_class():
+    """A user-defined type in the style of the library's own tests: length-prefixed payload kept in a mutable attribute."""
+    if not _BLOB:
+        from dissect.cstruct.types import BaseType
+
+        class Blob(BaseType):
+            def __init__(self, value=b""):
+                self.value = bytearray(value)
+
+            @classmethod
+            def _read(cls, stream, context=None):
+                n = stream.read(1)
+                if len(n) != 1:
+                    raise EOFError
+                return type.__call__(cls, stream.read(n[0] & 7))
+
+            @classmethod
+            def _write(cls, stream, data):
+                return stream.write(bytes([len(data.value) & 7]) + bytes(data.value[: len(data.value) & 7]))
+
+        _BLOB.append(Blob)
+    return _BLOB[0]
+
+
 def _load_defs(cs, spec):
     kw = {"compiled": spec["cfg"]["compiled"], "align": spec["cfg"]["align"]}
     if spec.get("late_defines"):
@@ -338,6 +371,10 @@ def exec_op(cl: Client, op, stats, mode, peers=None):
         def f():
             cl.cs = cstruct(endian=cl.spec["cfg"]["endian"], pointer=cl.spec["cfg"]["pointer"])
             _load_defs(cl.cs, cl.spec)
+            if cl.spec.get("custom"):
+                cl.cs.add_custom_type("Blob", _blob_class())
+                cl.cs.load("struct XBlob { uint8 n; Blob body; uint16 t; Blob more[2]; };", compiled=cl.spec["cfg"]["compiled"], align=False)
+                stats.count("probe.client_with_custom_type")
             if cl.spec.get("late_defines"):
                 stats.count("probe.client_with_late_defines")
             return ["ok"]
@@ -492,6 +529,34 @@ def exec_op(cl: Client, op, stats, mode, peers=None):
             except Exception:
                 return ["const", repr(cs.consts[op["name"]])]
         return _outcome(f)
+    if k.startswith("custom_"):
+        if not cl.spec.get("custom"):
+            return ["skip"]
+
+        def f():
+            X = cs.XBlob
+            if k == "custom_new":
+                v = X()
+                cl.handles.append(v)
+                o = observe(v)
+                first = cl.first_default.setdefault("XBlob", o)
+                if first != o:
+                    raise Violation("default_stability", "default_changed", f"default XBlob() now observes {o}, first time {first}")
+                return ["val", o]
+            if k == "custom_parse":
+                v = X(gen.gen_bytes(random.Random(op["seed"]), 40))
+                cl.handles.append(v)
+                return ["val", observe(v)]
+            cands = [x for x in cl.handles if type(x) is X]
+            if not cands:
+                return ["skip"]
+            hobj = cands[op["h"] % len(cands)]
+            tgt = hobj.body if op["b"] % 3 else hobj.more[op["b"] % 2]
+            tgt.value.append(op["b"])  # in-place change of the custom value held by ONE instance
+            stats.count("probe.custom_value_mutated_in_place")
+            return ["ok", ["target", _idx(cl.handles, hobj)]]
+        out = _outcome(f)
+        return out
     if k.startswith("build_"):
         def get():
             if op["name"] not in cl.built:
@@ -829,7 +894,7 @@ def run_world(case, stats, mode):
         stats.log(ci, op["op"], out)
         # ---- frame invariant: only the target of a mutating op may change
         target = None
-        if op["op"] in ("set", "arr_set", "arr_append", "set_diff", "elem_set") and out and isinstance(out[-1], list) and out[-1][:1] == ["target"]:
+        if op["op"] in ("set", "arr_set", "arr_append", "set_diff", "elem_set", "custom_mut") and out and isinstance(out[-1], list) and out[-1][:1] == ["target"]:
             target = (ci, out[-1][1])
         if True:
             for cj, other in enumerate(clients):
